@@ -8,7 +8,7 @@ Lemma body_plain : forall z, rest_wf z -> Forall plain (body z).
 Proof.
   intros z [_ Hf]. unfold body. apply Forall_forall. intros r Hr.
   apply in_flat_map in Hr. destruct Hr as [[[[n t] c] [ttl ds]] [Hin Hr]].
-  rewrite Forall_forall in Hf. apply Hf in Hin. cbn in Hin. destruct Hin as (Hn & Ht & Httl & _ & _).
+  rewrite Forall_forall in Hf. apply Hf in Hin. cbn in Hin. destruct Hin as (Hn & Ht & Httl & _ & _ & Hsg).
   cbn in Hr. apply in_map_iff in Hr. destruct Hr as [d [<- _]].
   unfold plain. cbn. auto.
 Qed.
@@ -23,7 +23,7 @@ Lemma step_plain_add : forall l p tz rdt inc ser udp so rq r, plain r ->
   step l (mkSt p (Some tz) rdt inc ser udp so false false false rq) (single r) =
   (mkSt p (Some (zput (rkey r) (add1 (look tz (rkey r)) (r_ttl r) (r_data r)) tz)) rdt inc ser udp so false false false rq, None).
 Proof.
-  intros l p tz rdt inc ser udp so rq r Hp. pose proof Hp as (Hc & Ht & Hn & Httl).
+  intros l p tz rdt inc ser udp so rq r Hp. pose proof Hp as (Hc & Ht & Hn & Httl & Hsg).
   unfold step. cbn [done txn expecting delmode].
   assert (E : (s_type (single r) =? tSOA) = false) by (apply Z.eqb_neq; exact Ht).
   rewrite E. cbn [andb].
@@ -38,7 +38,7 @@ Lemma step_plain_del : forall l p tz rdt inc ser udp so rq r, plain r ->
   | None => (mkSt p (Some tz) rdt inc ser udp so false false true rq, Some eDeleteNotExact)
   end.
 Proof.
-  intros l p tz rdt inc ser udp so rq r Hp. pose proof Hp as (Hc & Ht & Hn & Httl).
+  intros l p tz rdt inc ser udp so rq r Hp. pose proof Hp as (Hc & Ht & Hn & Httl & Hsg).
   unfold step. cbn [done txn expecting delmode].
   assert (E : (s_type (single r) =? tSOA) = false) by (apply Z.eqb_neq; exact Ht).
   rewrite E. cbn [andb].
